@@ -19,6 +19,7 @@ import AutosarVerif.Model.CData
 import AutosarVerif.Gen.RegexStrings
 import AutosarVerif.Gen.DfaData
 import Driver.Proto
+import Driver.World
 
 open AV AV.Proto AV.Gen
 
@@ -265,14 +266,34 @@ def answer (S : Spec) (ws : List String) : String :=
     | _, _ => "bad-op"
   | _ => "bad-op"
 
-partial def loop (S : Spec) (h : IO.FS.Stream) (out : IO.FS.Stream) : IO Unit := do
+/-- what the value layer of the world model needs: validators, enum texts, LATEST -/
+def worldEnv : W.Env where
+  validate k b :=
+    -- a table-driven validator is its table; a hand-written one is compared with its regex (C19)
+    match dfaOf k with
+    | some d => d.run (b.map (·.toNat))
+    | none => match regexOf k with
+      | some r => Rx.matchD r (b.map (·.toNat))
+      | none => false
+  enumText i := Hash.unpack 256 (enumArr.getD i 0)
+  enumOf b := Hash.fromBytesA hashParams Enum.table enumArr b
+  elemText i := Hash.unpack 256 (elemArr.getD i 0)
+  latest := versionTable.latest
+  nmDest := realSpec.atDest
+
+partial def loop (S : Spec) (w : W.World) (h : IO.FS.Stream) (out : IO.FS.Stream) : IO Unit := do
   let line ← h.getLine
   if line.isEmpty then return ()
   let ws := (line.trimAscii.toString.splitOn " ").filter (· ≠ "")
-  out.putStrLn (answer S ws)
-  loop S h out
+  match WDriver.step S worldEnv (fun v => versionTable.values.contains v) w ws with
+  | some (w', ans) =>
+    out.putStrLn ans
+    loop S w' h out
+  | none =>
+    out.putStrLn (answer S ws)
+    loop S w h out
 
 def main : IO Unit := do
   let out ← IO.getStdout
-  loop fastSpec (← IO.getStdin) out
+  loop fastSpec WDriver.emptyWorld (← IO.getStdin) out
   out.flush
